@@ -37,7 +37,7 @@ class AVR:
         if preserve is not None:
             r[20], r[21] = PRESERVE & 0xff, PRESERVE >> 8
         sp = sp_entry
-        C = Z = T = 0
+        C = Z = T = N = V = 0
         I = 1
         pc = prog.labels[entry]
         n = 0
@@ -90,7 +90,43 @@ class AVR:
                 d, s2 = self.reg(ops[0]), self.reg(ops[1])
                 v = r[d] ^ r[s2] if mn == 'eor' else r[d] & r[s2] if mn == 'and' else r[d] | r[s2]
                 r[d] = v
-                Z = int(v == 0)
+                Z, N, V = int(v == 0), v >> 7, 0
+            elif mn in ('andi', 'ori', 'cbr', 'sbr'):
+                d = self.reg(ops[0])
+                if d < 16:
+                    raise Violation('encoding', '%s needs r16..r31: %s' % (mn, src))
+                k = parse_int(ops[1]) & 0xff
+                v = r[d] & k if mn == 'andi' else r[d] & ~k & 0xff if mn == 'cbr' else r[d] | k
+                r[d] = v
+                Z, N, V = int(v == 0), v >> 7, 0
+            elif mn in ('clr', 'ser', 'tst'):
+                d = self.reg(ops[0])
+                if mn == 'ser':
+                    if d < 16:
+                        raise Violation('encoding', 'ser needs r16..r31: %s' % src)
+                    r[d] = 0xff
+                else:
+                    if mn == 'clr':
+                        r[d] = 0
+                    Z, N, V = int(r[d] == 0), r[d] >> 7, 0
+            elif mn in ('inc', 'dec'):
+                d = self.reg(ops[0])
+                V = int(r[d] == (0x7f if mn == 'inc' else 0x80))
+                r[d] = (r[d] + (1 if mn == 'inc' else -1)) & 0xff
+                Z, N = int(r[d] == 0), r[d] >> 7
+            elif mn == 'neg':
+                d = self.reg(ops[0])
+                v = (-r[d]) & 0xff
+                C, V, Z, N = int(v != 0), int(v == 0x80), int(v == 0), v >> 7
+                r[d] = v
+            elif mn == 'asr':
+                d = self.reg(ops[0])
+                C = r[d] & 1
+                r[d] = (r[d] >> 1) | (r[d] & 0x80)
+                Z, N = int(r[d] == 0), r[d] >> 7
+                V = N ^ C
+            elif mn == 'nop':
+                pass
             elif mn == 'mov':
                 r[self.reg(ops[0])] = r[self.reg(ops[1])]
             elif mn == 'movw':
@@ -101,7 +137,7 @@ class AVR:
             elif mn == 'com':
                 d = self.reg(ops[0])
                 r[d] = ~r[d] & 0xff
-                C, Z = 1, int(r[d] == 0)
+                C, Z, N, V = 1, int(r[d] == 0), r[d] >> 7, 0
             elif mn in ('ror', 'rol', 'lsr', 'lsl'):
                 d = self.reg(ops[0])
                 v = r[d]
@@ -114,32 +150,42 @@ class AVR:
                 else:
                     nv, C2 = (v << 1) & 0xff, v >> 7
                 r[d], C, Z = nv, C2, int(nv == 0)
+                N = nv >> 7
+                V = N ^ C
             elif mn in ('add', 'adc'):
                 d, s2 = self.reg(ops[0]), self.reg(ops[1])
-                v = r[d] + r[s2] + (C if mn == 'adc' else 0)
+                a0, b0 = r[d], r[s2]
+                v = a0 + b0 + (C if mn == 'adc' else 0)
                 r[d], C = v & 0xff, v >> 8
-                Z = int(r[d] == 0)
-            elif mn in ('sub', 'sbc', 'subi', 'sbci'):
+                Z, N = int(r[d] == 0), r[d] >> 7
+                V = ((a0 ^ r[d]) & (b0 ^ r[d])) >> 7 & 1
+            elif mn in ('sub', 'sbc', 'subi', 'sbci', 'cp', 'cpc', 'cpi'):
                 d = self.reg(ops[0])
-                if mn in ('subi', 'sbci'):
+                if mn in ('subi', 'sbci', 'cpi'):
                     if d < 16:
                         raise Violation('encoding', '%s needs r16..r31: %s' % (mn, src))
                     k = parse_int(ops[1]) & 0xff
                 else:
                     k = r[self.reg(ops[1])]
-                v = r[d] - k - (C if mn in ('sbc', 'sbci') else 0)
+                a0 = r[d]
+                v = a0 - k - (C if mn in ('sbc', 'sbci', 'cpc') else 0)
                 C = int(v < 0)
                 v &= 0xff
-                Z = int(v == 0) & (Z if mn in ('sbc', 'sbci') else 1)
-                r[d] = v
+                Z = int(v == 0) & (Z if mn in ('sbc', 'sbci', 'cpc') else 1)
+                N = v >> 7
+                V = ((a0 ^ k) & (a0 ^ v)) >> 7 & 1
+                if mn not in ('cp', 'cpc', 'cpi'):
+                    r[d] = v
             elif mn in ('adiw', 'sbiw'):
                 d, k = self.reg(ops[0]), parse_int(ops[1])
                 if d not in (24, 26, 28, 30) or not 0 <= k <= 63:
                     raise Violation('encoding', 'bad adiw/sbiw operands: %s' % src)
                 v = pair(d) + (k if mn == 'adiw' else -k)
                 C = int(v < 0 or v > 0xffff)
+                old = pair(d)
                 setpair(d, v & 0xffff)
-                Z = int(v & 0xffff == 0)
+                Z, N = int(v & 0xffff == 0), (v >> 15) & 1
+                V = int((mn == 'adiw' and not old >> 15 and N) or (mn == 'sbiw' and old >> 15 and not N))
             elif mn == 'swap':
                 d = self.reg(ops[0])
                 r[d] = ((r[d] << 4) | (r[d] >> 4)) & 0xff
@@ -173,7 +219,7 @@ class AVR:
                 r[self.reg(ops[0])] = mem.load(sp, 1, src)
             elif mn == 'in':
                 port = parse_int(ops[1])
-                v = {0x3d: sp & 0xff, 0x3e: sp >> 8, 0x3f: (I << 7) | (T << 6) | (Z << 1) | C}.get(port)
+                v = {0x3d: sp & 0xff, 0x3e: sp >> 8, 0x3f: (I << 7) | (T << 6) | ((N ^ V) << 4) | (V << 3) | (N << 2) | (Z << 1) | C}.get(port)
                 if v is None:
                     raise Unsupported('in from port 0x%x' % port)
                 r[self.reg(ops[0])] = v
@@ -186,7 +232,7 @@ class AVR:
                         problems.append(('stack-pointer-update-with-interrupts-enabled', src))
                     sp = (sp & 0x00ff) | (v << 8)
                 elif port == 0x3f:
-                    I, T, Z, C = v >> 7, (v >> 6) & 1, (v >> 1) & 1, v & 1
+                    I, T, V, N, Z, C = v >> 7, (v >> 6) & 1, (v >> 3) & 1, (v >> 2) & 1, (v >> 1) & 1, v & 1
                 else:
                     raise Unsupported('out to port 0x%x' % port)
             elif mn == 'cli':
@@ -194,7 +240,25 @@ class AVR:
             elif mn == 'cpse':
                 if r[self.reg(ops[0])] == r[self.reg(ops[1])]:
                     skip = True
-            elif mn == 'rjmp':
+            elif mn in ('sbrc', 'sbrs'):
+                bit = (r[self.reg(ops[0])] >> parse_int(ops[1])) & 1
+                if bit == (1 if mn == 'sbrs' else 0):
+                    skip = True
+            elif mn in ('sei', 'sec', 'clc', 'sez', 'clz', 'set', 'clt'):
+                if mn == 'sei':
+                    I = 1
+                elif mn in ('sec', 'clc'):
+                    C = int(mn == 'sec')
+                elif mn in ('sez', 'clz'):
+                    Z = int(mn == 'sez')
+                else:
+                    T = int(mn == 'set')
+            elif mn in ('breq', 'brne', 'brcs', 'brcc', 'brlo', 'brsh', 'brmi', 'brpl', 'brge', 'brlt', 'brts', 'brtc', 'brvs', 'brvc'):
+                take = {'breq': Z == 1, 'brne': Z == 0, 'brcs': C == 1, 'brlo': C == 1, 'brcc': C == 0, 'brsh': C == 0, 'brmi': N == 1, 'brpl': N == 0,
+                        'brge': (N ^ V) == 0, 'brlt': (N ^ V) == 1, 'brts': T == 1, 'brtc': T == 0, 'brvs': V == 1, 'brvc': V == 0}[mn]
+                if take:
+                    npc = prog.resolve(ops[0], pc)
+            elif mn in ('rjmp', 'jmp'):
                 npc = prog.resolve(ops[0], pc)
             elif mn == 'ret':
                 hi, lo = mem.load((sp + 1) & 0xffff, 1, src), mem.load((sp + 2) & 0xffff, 1, src)
